@@ -120,6 +120,20 @@ Proof.
   rewrite H in Sp. exact Sp.
 Qed.
 
+(** resolution_from_affine *)
+Lemma resolution_from_affine_st A tol :
+  is_affine_st A tol = true -> resolution_from_affine A tol = Ok (aa A, ae A).
+Proof. intros H. unfold resolution_from_affine. rewrite H. reflexivity. Qed.
+
+Lemma resolution_from_affine_rotated A tol rx ry :
+  is_affine_st A tol = false -> resolution_from_affine A tol = Ok (rx, ry) ->
+  exists R W Sm, decompose_rws (mkM (aa A) (ab A) (ad A) (ae A)) = Ok (R, W, Sm) /\ rx = m00 Sm /\ ry = m11 Sm.
+Proof.
+  intros H. unfold resolution_from_affine. rewrite H.
+  destruct (decompose_rws (mkM (aa A) (ab A) (ad A) (ae A))) as [[[R W] Sm]|]; [|discriminate].
+  simpl. intros E. injection E as E1 E2. exists R, W, Sm. repeat split; congruence.
+Qed.
+
 (** * affine_from_pts *)
 Lemma sumQ_combine_map {B} (f : Q * Q -> B) (g : (Q * Q) * B -> Q) X :
   sumQ (map g (combine X (map f X))) == sumQ (map (fun x => g (x, f x)) X).
